@@ -131,6 +131,103 @@ let content_case (c : case) (out : out_channel) =
   let exp = if !expected = [] then List.init (List.length clusters) nat_of_int else !expected in
   Printf.fprintf out "%s accepts %b\n" c.id (accepts !evs exp)
 
+let show_value (v : value res) : string =
+  match v with
+  | Err e -> show_res_err e
+  | Ok (VUnsigned n) -> "u" ^ string_of_n n
+  | Ok (VSigned z) -> "s" ^ string_of_z z
+  | Ok (VContent (p, c)) -> Printf.sprintf "c%s:%s" (string_of_n p) (string_of_n c)
+  | Ok (VArray b) -> "a" ^ show (ibytes b)
+
+let dir_dump (id : string) (f : n list) (out : out_channel) =
+  match dp_dump f with
+  | Err e -> Printf.fprintf out "%s open %s\n" id (show_res_err e)
+  | Ok idxs ->
+    Printf.fprintf out "%s open OK\n" id;
+    List.iter (fun r ->
+      match r with
+      | Err e -> Printf.fprintf out "%s index ? %s\n" id (show_res_err e)
+      | Ok d ->
+        let ih = d.id_header in
+        let name = string_of_bytes ih.ix_name in
+        Printf.fprintf out "%s index %s store=%s offset=%s count=%s\n" id name
+          (string_of_n ih.ix_store) (string_of_n ih.ix_offset) (string_of_n ih.ix_count);
+        (match d.id_store with
+         | Err e -> Printf.fprintf out "%s store %s %s\n" id name (show_res_err e)
+         | Ok (ly, entries) ->
+           let names ps = List.sort compare (List.map (fun p -> string_of_bytes p.pr_name) ps) in
+           let vnames = match ly.l_variants with
+             | None -> []
+             | Some (_, vs) -> List.map (fun (_, ps) -> String.concat "," (names ps)) vs in
+           Printf.fprintf out "%s layout %s common=%s variants=%s\n" id name
+             (String.concat "," (names ly.l_common)) (String.concat "|" vnames);
+           List.iteri (fun j e ->
+             match e with
+             | None -> Printf.fprintf out "%s entry %s %d NONE\n" id name j
+             | Some (vid, vals) ->
+               let ncommon = List.length ly.l_common in
+               let common = List.filteri (fun i _ -> i < ncommon) vals
+               and var = List.filteri (fun i _ -> i >= ncommon) vals in
+               let srt l = List.sort compare (List.map (fun (n, v) -> (string_of_bytes n, v)) l) in
+               let parts = List.map (fun (n, v) -> n ^ "=" ^ show_value v) (srt common @ srt var) in
+               Printf.fprintf out "%s entry %s %d v=%s%s\n" id name j
+                 (match vid with None -> "-" | Some v -> string_of_n v)
+                 (String.concat "" (List.map (fun s -> " " ^ s) parts))) entries)) idxs
+
+(* comparison of a decoded value with a probe value token (u<dec>, s<dec>, a:<payload>) *)
+let cmp_value (v : value res) (tok : string) : comparison option =
+  let of_int c = if c < 0 then Lt else if c > 0 then Gt else Eq in
+  match v with
+  | Ok (VUnsigned n) when tok.[0] = 'u' ->
+    Some (N.compare n (n_of_string (String.sub tok 1 (String.length tok - 1))))
+  | Ok (VSigned z) when tok.[0] = 's' ->
+    let t = String.sub tok 1 (String.length tok - 1) in
+    let zz = if t.[0] = '-' then (match n_of_string (String.sub t 1 (String.length t - 1)) with N0 -> Z0 | Npos p -> Zneg p)
+             else (match n_of_string t with N0 -> Z0 | Npos p -> Zpos p) in
+    Some (Z.compare z zz)
+  | Ok (VArray b) when tok.[0] = 'a' ->
+    let p = String.sub tok 2 (String.length tok - 2) in
+    Some (of_int (compare (ibytes b) (payload p)))
+  | _ -> None
+
+let dir_case (c : case) (out : out_channel) =
+  let file = ref [] in
+  let nfind = ref 0 in
+  List.iter (fun l ->
+    match l with
+    | ["file"; path] -> file := nbytes (read_file path); dir_dump c.id !file out
+    | "find" :: iname :: ordered :: keys ->
+      let fi = !nfind in incr nfind;
+      (match dp_dump !file with
+       | Err e -> Printf.fprintf out "%s find %d %s\n" c.id fi (show_res_err e)
+       | Ok idxs ->
+         let found = List.find_opt (fun r -> match r with
+           | Ok d -> string_of_bytes d.id_header.ix_name = iname | Err _ -> false) idxs in
+         (match found with
+          | Some (Ok { id_store = Ok (_, entries); _ }) ->
+            let keyl = List.map (fun kv -> match String.index_opt kv '=' with
+              | Some i -> (String.sub kv 0 i, String.sub kv (i+1) (String.length kv - i - 1))
+              | None -> failwith "bad key") keys in
+            let table = List.map (fun e ->
+              match e with
+              | None -> Gt
+              | Some (_, vals) ->
+                let rec go = function
+                  | [] -> Eq
+                  | (n, tok) :: rest ->
+                    let v = (try List.assoc n (List.map (fun (nm, v) -> (string_of_bytes nm, v)) vals)
+                             with Not_found -> Err EFormat) in
+                    (match cmp_value v tok with
+                     | Some Eq -> go rest
+                     | Some c -> c
+                     | None -> Gt) in
+                go keyl) entries in
+            (match find_table (ordered = "ordered=1") table with
+             | None -> Printf.fprintf out "%s find %d none\n" c.id fi
+             | Some i -> Printf.fprintf out "%s find %d %d\n" c.id fi (int_of_nat i))
+          | _ -> Printf.fprintf out "%s find %d NOINDEX\n" c.id fi))
+    | _ -> ()) c.lines
+
 let () =
   let cases = parse_cases Sys.argv.(1) in
   let out = open_out Sys.argv.(2) in
@@ -140,6 +237,7 @@ let () =
       | "views" -> views_case c out
       | "manifest" -> manifest_case c out
       | "content" -> content_case c out
+      | "dir" -> dir_case c out
       | f -> failwith ("unknown family " ^ f)
     with e -> Printf.fprintf out "%s MODEL_EXN %s\n" c.id (Printexc.to_string e)) cases;
   close_out out
